@@ -91,3 +91,66 @@ Definition from_tok (c : N) (e : entry) : bool := s_tok (e_src e) =? c.
 
 Definition sess_recount (t : table) (c : N) : N :=
   N.of_nat (length (filter (fun nd => existsb (from_tok c) (d_entries (snd nd))) (t_dests t))).
+
+(* ------------------------------------------- the per-session limit counter *)
+
+(* the session (Source token) on whose behalf an operation acts, and its peer *)
+Definition acting (o : op) : option (N * N) :=
+  match o with
+  | Insert s _ _ _ _ _ _ _ => Some (s_tok s, s_addr s)
+  | Remove s _ _ _ => Some (s_tok s, s_addr s)
+  | Drop _ addr (Some c) => Some (c, addr)
+  | _ => None
+  end.
+
+(* the table holds a path of the peer that belongs to another session *)
+Definition foreign_entry (tok addr : N) (t : table) : bool :=
+  existsb (fun e => from_addr addr e && negb (from_tok tok e)) (all_entries t).
+
+(* Known finding C15-session-counter: at some point of the history a session of
+   peer [a] acts while the RIB still holds paths of another session of the same
+   peer (a graceful-restart reconnect). *)
+Fixpoint known_two_sessions_from (a : N) (t : table) (ops : list op) : bool :=
+  match ops with
+  | [] => false
+  | o :: r =>
+      (match acting o with
+       | Some (tok, addr) => (addr =? a) && foreign_entry tok addr t
+       | None => false
+       end) || known_two_sessions_from a (fst (fst (step t o))) r
+  end.
+
+Definition Known_C15_two_sessions (a : N) (shard : N) (ops : list op) : Prop :=
+  known_two_sessions_from a (empty_table shard) ops = true.
+
+(* how the daemon uses the counters: the counter of a session is named by the
+   session's Source, every insert of the session carries it with the session's
+   configured maximum (a u32), every withdrawal and purge carries it too *)
+Definition ctr_disciplined (f : N -> N) (mx : N -> N) (o : op) : Prop :=
+  match o with
+  | Insert s _ _ _ _ _ _ lim => lim = Some (mx (s_tok s), s_tok s) /\ s_addr s = f (s_tok s)
+  | Remove s _ _ ctr => ctr = Some (s_tok s) /\ s_addr s = f (s_tok s)
+  | Drop DKAll _ _ => True
+  | Drop _ addr ctr => exists c, ctr = Some c /\ f c = addr
+  | _ => True
+  end.
+
+Definition mentions (c : N) (o : op) : bool :=
+  match o with
+  | Insert s _ _ _ _ _ _ _ => s_tok s =? c
+  | Remove s _ _ _ => s_tok s =? c
+  | Drop _ _ (Some c') => c' =? c
+  | _ => false
+  end.
+
+(* the session has not ended: its peer was not dropped (Table::drop) after the
+   session's first operation *)
+Fixpoint session_alive (a c : N) (started : bool) (ops : list op) : bool :=
+  match ops with
+  | [] => true
+  | o :: r =>
+      match o with
+      | Drop DKAll a' _ => if started && (a' =? a) then false else session_alive a c started r
+      | _ => session_alive a c (started || mentions c o) r
+      end
+  end.
